@@ -69,6 +69,22 @@ class State(object):
         return State(out, (self.sym & o.sym) | may)
 
 
+def const_index(e):
+    """value of an index expression made of integer literals, + - * and parentheses / casts; None otherwise"""
+    if e is None:
+        return None
+    if e.k == "int":
+        return e.val
+    if e.k in ("paren", "cast") and e.a:
+        return const_index(e.a[-1])
+    if e.k == "bin" and e.op in ("+", "-", "*") and len(e.a) == 2:
+        a, b = const_index(e.a[0]), const_index(e.a[1])
+        if a is None or b is None:
+            return None
+        return a + b if e.op == "+" else (a - b if e.op == "-" else a * b)
+    return None
+
+
 class Analyzer(object):
     """one function.  tracked: dict declid -> (name, dims|None) of variables to track.
     For summaries, parameters can be tracked as if they were locals (treat_params)."""
@@ -100,9 +116,10 @@ class Analyzer(object):
             return None
         c = 0
         for d, i in zip(dims, idx):
-            if i.k != "int" or not (0 <= i.val < d):
+            iv = const_index(i)          # 3 * 0 + 1 of an unrolled loop is the cell 1
+            if iv is None or not (0 <= iv < d):
                 return None
-            c = c * d + i.val
+            c = c * d + iv
         return c
 
     def is_array(self, decl):
@@ -113,7 +130,7 @@ class Analyzer(object):
         if v is True or v == ALL:
             return True
         if self.is_array(decl) and (decl, ("*",), frozenset()) in st.sym:
-            return True          # filled by a loop somewhere before: cannot enumerate the cells, nothing to report
+            return True          # stored by a loop at an index the analysis cannot enumerate: which cells are set is undecided, nothing is reported
         if v is False or v is None:
             return False
         c = self.cell(decl, idx)
